@@ -29,7 +29,7 @@ EXHAUSTIVE_SUBDOMAINS = ["every single cut and every pair of cuts of each genera
 ASSUMPTIONS = ["streams start at a frame boundary and end with a sentinel frame, so every judged frame is eventually followed "
                "by a frame start", "end-to-end sessions whose bytes were not all delivered before the receive timeout are "
                "counted as inconclusive sessions, never as violations"]
-REQUIRED = ["e2e_quiet_spells_between_reads", "batches_read_back_after_later_reads", "beast_single", "beast_double", "beast_random", "beast_cut_inside_escape", "beast_cut_after_frame_start",
+REQUIRED = ["e2e_quiet_spells_between_reads", "e2e_empty_parts_in_mid_stream", "batches_read_back_after_later_reads", "beast_single", "beast_double", "beast_random", "beast_cut_inside_escape", "beast_cut_after_frame_start",
             "beast_rssi", "raw_single", "raw_double", "sky_single", "sky_double", "netsource", "netsource_commb_backlog_over_1000", "second_client_alive", "e2e_sessions"]
 # e2e_midframe_boundary (a recv() boundary inside a frame was actually observed) is reported in the evidence but not
 # required: TCP may coalesce pieces on a loaded machine and that must not turn the verdict inconclusive
@@ -92,6 +92,13 @@ def run_seg(ctx, kind, reader, stream, cuts, exp, extra, info):
             c2.buffer.extend(bytes(reversed(stream[pos:cut])) + stream[:7])
             call(fn2)
             ctx.hit("second_client_alive")
+        if (pos + len(stream)) % 5 == 0:
+            r0 = call(fn)                      # a read that brought nothing: the reader runs on what it already holds
+            if r0[0] == "ok" and r0[1]:
+                batches.append(r0[1])
+                for m in r0[1]:
+                    emitted.append(m[0])
+            ctx.hit("reader_called_with_nothing_new")
         c.buffer.extend(stream[pos:cut])
         pos = cut
         r = call(fn)
@@ -320,6 +327,11 @@ def m_e2e(ctx, case):
             if case.get("again_every") and rec["calls"] % case["again_every"] == 0 and rec.get("injected", 0) < 200:
                 rec["injected"] = rec.get("injected", 0) + 1
                 raise zmq.error.Again()
+            if case.get("empties") and rec["calls"] % 3 == 1 and rec.get("empty_parts", 0) < 300 and rec["sizes"]:
+                # "arbitrary pieces" include an EMPTY one: a zero-length data part in the middle of the stream (what a zmq STREAM
+                # socket delivers for a connection event) adds nothing and takes nothing
+                rec["empty_parts"] = rec.get("empty_parts", 0) + 1
+                return [b"\x00pmv-peer", b""]
             try:
                 parts = self._s.recv_multipart(*a, **k)
             except zmq.error.Again:
@@ -373,6 +385,8 @@ def m_e2e(ctx, case):
     th.join(timeout=3)
     if case.get("slow") and vclock["off"] > 0:
         ctx.hit("e2e_quiet_spells_between_reads")
+    if rec.get("empty_parts"):
+        ctx.hit("e2e_empty_parts_in_mid_stream", rec["empty_parts"])
     ctx.ev()
     ctx.hit("e2e_sessions")
     msgs_exp = [m for _, m in exp]
@@ -631,4 +645,4 @@ def cases(ctx):
                     cuts.add(e + 1 + rng.randint(1, 3))
         cuts = sorted(cuts)
         yield "e2e", {"kind": fmt, "specs": specs, "cuts": cuts, "delay": rng.choice((0.02, 0.05)),
-                      "again_every": rng.choice((0, 2, 2, 3)), "slow": (k + ctx.shard) % 2 == 1}
+                      "again_every": rng.choice((0, 2, 2, 3)), "slow": (k + ctx.shard) % 2 == 1, "empties": (k + ctx.shard) % 3 == 0}
